@@ -106,7 +106,7 @@ func genSpecials() []descCase {
 		{"interface str.ing\nmethod M(s: string) -> (s: string)\nerror E (s: string)\n", "pkg-predeclared"},
 		{"interface err.or\nmethod M() -> ()\nerror E (s: string)\n", "pkg-predeclared"},
 		{"interface in.it\nmethod M() -> ()\n", "pkg-init"},
-		// former findings, repaired by dfa0aa0 / a32447a / a04eec4: regression inputs, now expected to succeed
+		// former findings, repaired by 30ae85f / 764942c / 2a8a008: regression inputs, now expected to succeed
 		// like any other description of the domain (text equality, go build, probe)
 		{"# uses json.RawMessage\ninterface a.b\nmethod M() -> ()\n", "imp=comment-mentions-json"},
 		{"interface a.b\n# calls fmt.Sprintf\nmethod M() -> ()\nerror E\n", "imp=comment-mentions-fmt"},
@@ -330,7 +330,7 @@ func (d *descBuilder) doc(b *strings.Builder, nlStr string) {
 	for i := 0; i < n; i++ {
 		l := d.g.Pick(genDocLines)
 		if d.g.Chance(1, 10) || (d.risky && d.g.Chance(1, 6)) {
-			// texts the import detection used to search for; plain documentation since dfa0aa0
+			// texts the import detection used to search for; plain documentation since 30ae85f
 			l = d.g.Pick(genRiskyDocLines)
 		}
 		b.WriteString("#")
